@@ -812,7 +812,10 @@ class _GzipMessageDelegate(httputil.HTTPMessageDelegate):
         if self._decompressor is not None:
             if self._compressed_input_seen and not self._decompressor.eof:
                 # zlib's flush() does not complain about a stream that
-                # simply stops in the middle.
+                # simply stops in the middle. The wrapped delegate has seen
+                # the headers (and data): it is told that the message ends
+                # here, as for any other malformed body.
+                self._delegate.on_connection_close()
                 raise httputil.HTTPInputError("truncated gzip body")
             tail = self._decompressor.flush()
             if tail:
